@@ -1,6 +1,7 @@
 import VaxisModel.Driver.C01
 import VaxisModel.Model.C12Compose
 import VaxisModel.Model.EmuIO
+import VaxisModel.Model.C12Replies
 
 /-! Driver for C12: a Vaxis application rendered into the embedded terminal emulator.
 Uses the C01 driver's state for `caps`/`size`/`dict`/`cell`/`showcursor`/`hidecursor` lines, plus:
@@ -14,6 +15,15 @@ Uses the C01 driver's state for `caps`/`size`/`dict`/`cell`/`showcursor`/`hidecu
   emudraw \t <host grid, cells inline in the same format>
       verdict: the cells Draw put into a host window of the same size mean the emulator grid
 
+  emuqstart <w> <h>
+      the reply exchange starts: the model emulator is New() + resize(w, h)
+  emuquery <op line of Model/EmuIO.lean> \t <hex of the bytes the real emulator replied>
+      one sequence Vaxis wrote during start-up. model-canon = the bytes of `Model.C12Replies.replies`
+      on the model state, impl-canon = the real reply; then the model emulator executes the sequence.
+  emucaps also compares (model-canon / impl-canon): the capability bits `Model.C12Replies.capsFrom`
+      derives from the MODELLED replies (C03's model of handleSequence + New()) with the bits the real
+      Vaxis detected, and checks that `Model.C12Replies.startupQueries` is what Vaxis really sent
+      (the sequences between the alternate-screen prelude and DA1).
   emuadopt \t <full emulator snapshot, format of Model/EmuIO.lean>
       the model emulator continues from the implementation's state (after start-up and after a resize)
   emustate \t <full emulator snapshot>
@@ -34,6 +44,10 @@ structure St where
   emuM : Option VaxisModel.Model.Emu.Emu := none
   /-- the emulator model panicked / has no state: later frames of the case are not compared -/
   emuDead : Bool := false
+  /-- reply exchange: model emulator, sequences seen so far (newest first), modelled replies (in order) -/
+  qEmu : Option VaxisModel.Model.Emu.Emu := none
+  qOps : List VaxisModel.Model.Emu.EOp := []
+  qReplies : List VaxisModel.Model.Input.Seq := []
   deriving Inhabited
 
 def C05diff (m i : String) : String × String :=
@@ -112,11 +126,46 @@ def step (s : St) (line : String) : St × String :=
   let (op, impl) := splitTab line
   match fields op with
   | "#case" :: _ => ({}, "-\t-\t-")
+  | ["emuqstart", w, h] =>
+      match w.toInt?, h.toInt? with
+      | some w, some h =>
+        match VaxisModel.Model.Emu.Emu.new VaxisModel.Model.Emu.Fixes.current w h with
+        | .ok e => ({ s with qEmu := some e, qOps := [], qReplies := [] }, "-\t-\t-")
+        | .error _ => (s, C01.bad3)
+      | _, _ => (s, C01.bad3)
+  | "emuquery" :: rest =>
+      match VaxisModel.Model.EmuIO.parseOp? (" ".intercalate rest), s.qEmu with
+      | some (.op o), some e =>
+        if o matches .c0 0 then (s, "-\t-\t-") else      -- padding NULs of the console buffer
+        let rs := VaxisModel.Model.C12Replies.replies none e o
+        let mb := hexOfBytes (rs.flatMap VaxisModel.Model.C12Replies.seqBytes)
+        let ib := if impl = "" then "-" else impl
+        let e' := match VaxisModel.Model.Emu.emuStep e o with
+          | .ok (e', _) => some e'
+          | .error _ => none
+        ({ s with qEmu := e', qOps := o :: s.qOps, qReplies := s.qReplies ++ rs }, s!"reply={mb}\treply={ib}\t-")
+      | _, _ => (s, "-\t-\t-")
   | ["emucaps"] =>
       let det := (names.zip (impl.toList.map (· == '1'))).filter (·.2) |>.map (·.1)
-      match det.find? (fun n => !implemented.contains n) with
-      | some n => (s, s!"chk\tchk\tFAIL Vaxis understood the emulator's replies as '{n}', which the emulator does not implement")
-      | none => (s, "chk\tchk\tok")
+      let v := match det.find? (fun n => !implemented.contains n) with
+        | some n => s!"FAIL Vaxis understood the emulator's replies as '{n}', which the emulator does not implement"
+        | none => "ok"
+      if s.qEmu.isNone then (s, s!"chk\tchk\t{v}") else
+      -- the model of the exchange: capabilities derived from the modelled replies
+      let mcaps := match VaxisModel.Model.C12Replies.capsFrom s.qReplies with
+        | .ok c => String.ofList (names.map fun n =>
+            match (VaxisModel.Model.Input.Caps.fieldNames.zip c.toList).find? (fun (p : String × Bool) => p.1 == n) with
+            | some (_, true) => '1'
+            | _ => '0')
+        | .error _ => "panic"
+      -- `startupQueries` is what Vaxis really sent: the sequences after the alternate-screen prelude
+      -- (CSI ?1049h, CSI ?25l, CSI m) up to DA1
+      let ops := s.qOps.reverse
+      let body := (ops.drop 3).take VaxisModel.Model.C12Replies.startupQueries.length
+      let same := (body.map reprStr) == (VaxisModel.Model.C12Replies.startupQueries.map reprStr)
+      let mq := if same then "queries=model" else "queries=" ++ " | ".intercalate (VaxisModel.Model.C12Replies.startupQueries.map reprStr)
+      let iq := if same then "queries=model" else "queries=" ++ " | ".intercalate (body.map reprStr)
+      (s, s!"caps={mcaps} {mq}\tcaps={impl} {iq}\t{v}")
   | ["emuadopt"] =>
       match VaxisModel.Model.EmuIO.parseSnap? impl with
       | some sn => ({ s with emuM := some sn.e, emuDead := false }, "-\t-\t-")
